@@ -31,7 +31,7 @@ static constexpr bool is_expression_v = is_expression<Derived>::value;
 template<class T>
 struct expression_binder_type {
 #ifndef FASTOR_COPY_EXPR
-    using type = conditional_t_<is_expression_v<T> || is_arithmetic_v_<T>, const T, const T&>;
+    using type = conditional_t_<is_expression_v<T> || is_arithmetic_v_<T> || is_complex_v_<T>, const T, const T&>;
 #else
     using type = const T;
 #endif
